@@ -9,6 +9,9 @@ PROOFS = {
     "C03": dict(coq=["theories/Prop_C03.v"], full=True,
                 missing="(hypothesis: the os.urandom draws of a history are pairwise distinct 8-byte strings)"),
     "C04": dict(coq=["theories/Prop_C04.v"], full=True, missing=""),
+    "C05": dict(coq=["theories/Prop_C05.v"], full=True,
+                missing="(\"the first two sides keep their access\" fails for a re-open on a fresh connection after a third side was "
+                        "refused: known finding KF2, refuted witness in Prop_C05.v; everything else of the statement is proved)"),
     "C06": dict(coq=["theories/Prop_C06.v"], full=False,
                 missing="Step isolation proved (a command of app A changes nothing of app B and sends nothing to B). The "
                         "trace-level non-interference statement (B's observations equal those of the history with the other "
@@ -17,9 +20,9 @@ PROOFS = {
     "C07": dict(coq=["theories/Prop_C07.v"], full=True, missing=""),
     "C08": dict(coq=["theories/Prop_C08.v"], full=True, missing=""),
     "C09": dict(coq=["theories/Prop_C09.v"], full=True, missing=""),
-    "C10": dict(coq=["theories/Prop_C10.v"], full=False,
-                missing="Proved: every committed snapshot well-formed, restart never fails internally, quiescence empties the "
-                        "store. Not yet quoted: resume equivalence of re-sent commands (ResumeFacts)."),
+    "C10": dict(coq=["theories/Prop_C10.v"], full=True,
+                missing="(resume equivalence is proved under `nothing_expirable`: the restarted server's start-up sweep deletes "
+                        "nothing; a re-sent close of a surviving mailbox re-stamps `updated`: KF4)"),
     "C11": dict(coq=["theories/Prop_C11.v"], full=True, missing=""),
     "C12": dict(coq=["theories/Prop_C12.v"], full=True, missing=""),
     "C13": dict(coq=["theories/Prop_C13.v"], full=True, missing=""),
